@@ -20,8 +20,9 @@ CLAIMS = {
             "both modes, unbounded in prose and digits) about a statement-by-statement Lean model of "
             "extract_default/set_default_doc/interpolate_defaults; the model is tied to the code by running both on the "
             "same generated operations (adversarial text included); the property predicate itself is evaluated on the "
-            "real code for every in-domain case. Floats and code defaults are covered by the differential run and the "
-            "predicate only (no theorem yet); three recorded findings delimit the domain."
+            "real code for every in-domain case. C17_float / C17_float_typed (C17Float.lean) cover floats written "
+            "digits.digits; floats with an exponent and code defaults are covered by the differential run and the "
+            "predicate only; three recorded findings delimit the domain."
         ),
         design="§7 C17",
         note=TB + "Modelled not verified: str methods (ASCII), literal_eval/int()/float() on the value grammar; float(repr(x)) == x is CPython's.",
@@ -36,8 +37,13 @@ CLAIMS = {
             "the default sentence. numpydoc and google are modelled statement by statement too (entry emitters, "
             "emit.docstring, the scan phase, the parse phase): scanLoop_keeps_lines (the line grouping drops, duplicates "
             "or reorders no line of a section) and parseNumpy_emitted / parseGoogle_emitted (the entry parsers invert the "
-            "entry emitters on trimmed single-line entries); a whole-docstring round-trip theorem exists for ReST only "
-            "(partial). All models are run against the code on every generated IR and on mutated text, entry by entry and "
+            "entry emitters on trimmed single-line entries), and NumpyRT.C01_numpydoc_nodefault_partial / "
+            "GoogleRT.C01_google_nodefault_partial: the whole round trip emit.docstring -> scan phase -> line grouping -> "
+            "return split -> entry parser -> interpolate_defaults -> _set_name_and_type is the identity on the same "
+            "default-free domain for these two styles as well (any number of parameters; the grouping loop is shown to be a "
+            "fold, scanLoop_fold). The three whole-docstring theorems are partial: no defaults (the default sentence is "
+            "covered by the C17 theorems, floats included), no return entry, and the lexical side conditions listed in "
+            "DESIGN A.3. All models are run against the code on every generated IR and on mutated text, entry by entry and "
             "as whole docstrings. The recorded finding classes delimit the domain on which the property holds today; a "
             "failure is excused only when each of its differences is about a field of an entry a finding explains."
         ),
@@ -215,7 +221,7 @@ CLAIMS = {
         note=TB + "Emit determinism (same description, same options -> same bytes) is C12's; ast.unparse runs for real.",
     ),
     "C18": dict(
-        technique="Lean 4 theorems on a model of textwrap.fill for the simple class of text (layout-only, width bound, fits => identity) + per-width sub-process differential run; wrapped-vs-unwrapped parse comparison on the real code",
+        technique="Lean 4 theorems on a model of textwrap.fill for the simple class of text (layout-only, width bound, fits => identity) and of the parser's line join (unwrap_fill: the join undoes the wrap for every width and every indentation) + per-width sub-process differential runs; wrapped-vs-unwrapped parse comparison on the real code",
         text=(
             "Kernel-checked: Wrap.wrapGo_flatten / wrapWords_flatten (the words of the produced lines, in order, are exactly "
             "the input words: wrapping is layout only - nothing lost, duplicated or moved), wrapGo_width (no line exceeds "
@@ -223,10 +229,14 @@ CLAIMS = {
             "unchanged, for EVERY width), with join_split / lineLen_split; all by induction over the word list, no bound. "
             "Wrap.fillSimple is tied to doctrans.pure_utils.fill (textwrap at the configured width) by a differential run "
             "in one sub-process per width (the setting is read at import). The predicate runs every emitter at every width "
-            "of the sweep with word_wrap on and compares parse(wrapped) with parse(unwrapped) modulo whitespace. Partial: "
-            "what the parsers do with wrapped lines is not modelled - numpydoc continuation lines and wrapped :type lines "
-            "are recorded findings; text outside the simple class (hyphens, words longer than the width) is covered by the "
-            "predicate only."
+            "of the sweep with word_wrap on and compares parse(wrapped) with parse(unwrapped) modulo whitespace. "
+            "Unwrap.unwrap_fill is the other half: what _set_name_and_type does to wrapped prose (Py.unwrapProse, the very "
+            "function the ReST/numpydoc/google parse models call: every line stripped, the lines joined by one blank) gives "
+            "back the text that was wrapped, for EVERY width, EVERY text of the simple class and EVERY white-space "
+            "indentation in front of the lines; tied by the `unwrap` layer (the real _set_name_and_type on the real fill "
+            "output, indented four ways). Partial: numpydoc continuation lines and wrapped :type lines are recorded "
+            "findings (their exact shape is what the finding class excuses, nothing more); text outside the simple class "
+            "(hyphens, words longer than the width) is covered by the predicate only."
         ),
         design="§7 C18",
         note=TB + "textwrap.fill outside the simple class (break_long_words, break_on_hyphens, tabs) is not modelled.",
